@@ -37,3 +37,22 @@ Theorem C08_first_front_complete :
     rest = [] /\ n < length f0.
 Proof. exact @front0_dropped_only_if_too_big. Qed.
 Print Assumptions C08_first_front_complete.
+
+(* exactly the feasible non-dominated members: among the survivors of a truncation, the members of the first front (the ones
+   that receive rank 0, C08_rank_attribute) are exactly those that no survivor dominates (finite descent: every dominated
+   individual is dominated by a member of the first front, and the first front survives entirely unless it is the only one) *)
+Theorem C08_rank0_members_are_the_nondominated_ones :
+  forall (N : num) (ok : N -> Prop), ord_laws N ok ->
+  forall (F : list (list N)) m n fronts surv f0 rest s,
+    well_formed_objs (ok := ok) F m -> rnc_result F n fronts surv -> fronts = f0 :: rest -> In s surv -> s < length F ->
+    (In s f0 <-> forall d, In d surv -> pdomb (nth d F []) (nth s F []) = false).
+Proof. intros N ok L. exact (rank0_iff_nondominated L). Qed.
+Print Assumptions C08_rank0_members_are_the_nondominated_ones.
+
+(* the rank attributes written by a truncation are the front indices: (member of the k-th front, k) *)
+Theorem C08_rank_attribute :
+  forall (N : num) (F : list (list N)) n s surv attrs s',
+    rnc_do F n s = Ok ((surv, attrs), s') ->
+    exists fronts, is_ndsb F n fronts = true /\ map (fun a : nat * nat * N => fst a) attrs = rank_pairs 0 fronts.
+Proof. exact @rnc_do_attrs. Qed.
+Print Assumptions C08_rank_attribute.
